@@ -111,6 +111,8 @@ def run(sid, props, tier="quick"):
                 json.dump(meta, open(os.path.join(d, "meta.json"), "w"), indent=1)
     finally:
         sh("git -C /repo reset -q --hard HEAD")
+        # the generated files must describe the unchanged tree again
+        sh("/venv/bin/python tools/gen_tables.py all; /venv/bin/python tools/py2coq.py all", cwd=VERIF)
         for ev, txt in saved.items():
             with open(ev, "w") as fh:
                 fh.write(txt)
